@@ -21,9 +21,10 @@ DoNewWriter == res.op = "setup" /\ NewWriter(localMax) /\ UNCHANGED <<nsend, nin
 DoNewReader == res.op = "writer" /\ NewReader /\ UNCHANGED <<nsend, ninj>>
 DoSend == Ready /\ nsend < MaxSend /\ (\E s \in Sizes : Send(s)) /\ nsend' = nsend + 1 /\ UNCHANGED ninj
 HeadSpaces == IF queue = <<>> THEN {} ELSE {Head(queue).size + d : d \in 0..3}
-DoPack == Ready /\ (\E sp \in Spaces \cup HeadSpaces : Pack(sp)) /\ UNCHANGED <<nsend, ninj>>
+Forms(sp) == {<<w, p>> : w \in BOOLEAN, p \in {0} \cup (IF EffQueue = <<>> THEN {} ELSE {Monus(sp, Head(EffQueue).size + 1)})}
+DoPack == Ready /\ (\E sp \in Spaces \cup HeadSpaces : \E fm \in Forms(sp) : Pack(sp, fm[1], fm[2])) /\ UNCHANGED <<nsend, ninj>>
 \* the assembler keeps offering empty full-size packets (open, uncongested connection)
-DoPackFull == Ready /\ Pack(MaxPkt) /\ UNCHANGED <<nsend, ninj>>
+DoPackFull == Ready /\ (\E fm \in Forms(MaxPkt) : Pack(MaxPkt, fm[1], fm[2])) /\ UNCHANGED <<nsend, ninj>>
 DoLose == Ready /\ (\E i \in DOMAIN net : Lose(i)) /\ UNCHANGED <<nsend, ninj>>
 DoDeliver == Ready /\ Deliver /\ UNCHANGED <<nsend, ninj>>
 DoInject == Ready /\ ninj < MaxInj /\ (\E s \in InjSizes, w \in BOOLEAN : Inject(s, w)) /\ ninj' = ninj + 1 /\ UNCHANGED nsend
